@@ -506,15 +506,16 @@ PROPS = {
                            canon=None, scenario_cmd="cnew", full_canon=lambda q, line: line, extra_args=["A", "B", "A", "B", "F"],
                            rule="real Clients driven through the public API (objects, services with a serving task, proxies, calls with and "
                                 "without abort, event subscriptions, channels created / shared / claimed / established / used / closed / "
-                                "dropped at any point, bus listeners, sync, introspection queries) by a deterministic executor whose next "
-                                "task is chosen by the PRNG. Scenario A: one client, the harness plays the broker and answers correctly or "
+                                "dropped at any point, bus listeners, sync, introspection queries; pending operations dropped at random "
+                                "points) by a deterministic executor whose next task is chosen by the PRNG. Scenario A: one client, the harness plays the broker and answers correctly or "
                                 "not and injects unsolicited messages; every message given to the client is one line whose answer is what "
                                 "the client did (ok / unexpected / panic / shutdown). Scenarios B, F: a real broker, 2-4 clients on bounded "
                                 "(1..16) or unbounded transports, operations started at random points of a random schedule, every message "
                                 "crossing a client's transport replayed through the model. Implementation-only oracles: no client stops "
                                 "with an error, nothing panics, whenever the system is quiescent every operation that only waits for the "
                                 "broker is complete (lost wake-up / deadlock), a call returns the value computed for that call, channel "
-                                "items arrive in order, everything completes once all handles are gone, the broker counts nothing and "
+                                "items arrive in order, every proxy subscribed to an event of a live service gets what its owner emits, "
+                                "no task polls its transport 300000 times without returning (busy loop), everything completes once all handles are gone, the broker counts nothing and "
                                 "stops when idle"),
         "trusted": ["the harness' executor (a task is polled only when woken; a lost wake-up therefore shows as an incomplete operation "
                     "at quiescence); the fake broker of scenario A; which operations count as waiting for the broker only",
@@ -529,8 +530,9 @@ PROPS = {
                            canon=None, scenario_cmd="cnew", full_canon=lambda q, line: line, extra_args=["F", "A", "F"],
                            rule="scenario F: a real broker and 2-4 real clients under a PRNG-chosen schedule; one client is stopped by one of "
                                 "handle.shutdown(), dropping every handle, BrokerHandle::shutdown, BrokerHandle::shutdown_connection, or by "
-                                "its transport failing (error / end of stream) at its k-th transport operation (each receive, send, flush "
-                                "counted; k uniform in 0..70, so also during the handshake and the drain). Checked: the run future returns "
+                                "its transport failing at its k-th transport operation (each receive, send, flush counted; k uniform in "
+                                "0..70, so also during the handshake and the drain) in one of four ways: error, end of stream, send side "
+                                "only (sends fail, nothing arrives any more), receive side only. Checked: the run future returns "
                                 "(the model's `cend` answer: clean for the clean causes, transport otherwise), every operation task of "
                                 "every client is complete at quiescence, operations started on the stopped client complete at once, the "
                                 "other clients end cleanly, the broker counts no connection / object / service / channel / listener and "
